@@ -182,5 +182,9 @@ let run_op (op : string) (args : string list) : string =
     let s = schema_of_sexp (parse_sexp sch) in
     let v = nvalue_of_sexp (parse_sexp nv) in
     (if in_scope s then "1" else "0") ^ (if unamb v then "1" else "0") ^ (if small_seqs v then "1" else "0")
+  | "reencscope", [ sch; js ] ->
+    let s = schema_of_sexp (parse_sexp sch) in
+    let j = json_of_sexp (parse_sexp js) in
+    "scope=" ^ (if reenc_scope s then "1" else "0") ^ " wf=" ^ (if json_wf j then "1" else "0")
   | _ -> failwith ("unknown op " ^ op)
 
